@@ -16,7 +16,7 @@ BOX = 8.0
 def case_strategy(draw):
     nv = draw(st.integers(1, 3))
     lens = [draw(st.integers(1, 3)) for _ in range(nv)]
-    kind = draw(st.sampled_from(["feas", "feas", "feas", "feas", "infeas", "unbounded"]))
+    kind = draw(st.sampled_from(["feas", "feas", "feas", "feas", "infeas", "unbounded", "simplex"]))
     x0 = [[draw(st.sampled_from(rm.DY)) for _ in range(l)] for l in lens]
     d = draw(st.integers(1, 3))
     objective = draw(rm.gen(lens, 1, draw(st.sampled_from(["convex", "convex", "affine"])), d))
@@ -32,7 +32,9 @@ def case_strategy(draw):
             t = draw(rm.gen(lens, L, "convex", draw(st.integers(1, 3))))
         cons.append(dict(type=ctype, tree=t, slack=draw(st.sampled_from([0.5, 1.0, 2.0])),
                          scalar_rhs=draw(st.booleans())))
-    return dict(lens=lens, kind=kind, x0=x0, objective=objective, cons=cons,
+    if kind == "simplex":
+        cons = cons if draw(st.booleans()) else []
+    return dict(lens=lens, kind=kind, x0=x0, objective=objective, cons=cons, total=draw(st.sampled_from([1.0, 1.0, 4.0, 25.0])),
                 format=draw(st.sampled_from(["dense", "sparse"])), solver=draw(st.sampled_from(["default", "default", "glpk"])),
                 sparse=draw(st.booleans()), ub_var=draw(st.integers(0, nv - 1)))
 
@@ -51,8 +53,27 @@ def model(case):
         ref_ineq.append(tree_le0)
         cv_cons.append(cvx_c)
         meta.append("i")
-    # box (absent in the unbounded variant)
-    if kind != "unbounded":
+    if kind == "simplex":
+        # homogeneous inequalities x >= 0 and one equality with a non-zero constant, sum of all components = total:
+        # a bounded problem whose matrix form has h = 0, b != 0 (no box)
+        x0 = [np.abs(v) + 0.5 for v in x0]
+        tot = float(sum(float(np.sum(v)) for v in x0))
+        x0 = [v * (case.get("total", 1.0) / tot) for v in x0]
+        ssum = ["sum", ["var", 0]]
+        fsum = None
+        for k, l in enumerate(lens):
+            add_ineq(["neg", ["var", k]], xs[k] >= 0.0)
+            if k:
+                ssum = ["add", ssum, ["sum", ["var", k]]]
+        from cvxopt.modeling import sum as msum
+        fsum = msum(xs[0])
+        for k in range(1, len(lens)):
+            fsum = fsum + msum(xs[k])
+        ref_eq.append(["sub", ssum, ["const", [case.get("total", 1.0)]]])
+        cv_cons.append(fsum == float(case.get("total", 1.0)))
+        meta.append("e")
+    # box (absent in the unbounded and simplex variants)
+    elif kind != "unbounded":
         for k, l in enumerate(lens):
             add_ineq(["sub", ["var", k], ["const", [BOX] * l]], xs[k] <= BOX)
             add_ineq(["sub", ["const", [-BOX] * l], ["var", k]], xs[k] >= -BOX)
@@ -112,7 +133,7 @@ def oracle(case, stats=None):
         if stats is not None:
             stats.evaluated(case, False, labels + ["skipped:highs_other"])
         return
-    if case["kind"] == "feas" and st_ref != "optimal":
+    if case["kind"] in ("feas", "simplex") and st_ref != "optimal":
         raise RuntimeError("generator/oracle inconsistency: planted feasible boxed problem but HiGHS says %s" % st_ref)
     P = op(fobj, cv_cons)
     try:
